@@ -349,23 +349,27 @@ def starSt : St :=
                       else [("y", .int 100)],
      reg := [(["file", "a"], 0), (["modules", "m1"], 1)] }, fresh 0⟩
 
-/-- **C11-F6 repaired (witness, both shapes).**  Current code: `from m1 import *` binds exactly the names of `__all__`
-(`x` and the private `_p`), the importer's own `y` survives.  Shape before the repair (regression witness): `y` was
-overwritten by the module's `y` and `_p` was not imported. -/
+/-- **C11-F6 (open; witness, both shapes).**  With the `__all__`-reading shape `Cfg.withAll`, `from m1 import *` binds
+exactly the names of `__all__` (`x` and the private `_p`) and the importer's own `y` survives.  TODAY's code
+(`Cfg.current`, same as the pre-fix shape in this respect): `y` is overwritten by the module's `y` and `_p` is not
+imported – the repair was withdrawn at integration, see findings.d/C11.json. -/
 theorem C11_regress_star_ignores_all :
-    ((bindStarC Cfg.current starSt 1).1.h.tab 0 = [("y", .int 100), ("x", .int 1), ("_p", .int 3)] ∧
-     (bindStarC Cfg.current starSt 1).2 = none) ∧
+    ((bindStarC Cfg.withAll starSt 1).1.h.tab 0 = [("y", .int 100), ("x", .int 1), ("_p", .int 3)] ∧
+     (bindStarC Cfg.withAll starSt 1).2 = none) ∧
+    ((bindStarC Cfg.current starSt 1).1.h.tab 0 = [("y", .int 2), ("x", .int 1)]) ∧
     ((bindStarC Cfg.preFix starSt 1).1.h.tab 0 = [("y", .int 2), ("x", .int 1)]) := by
-  refine ⟨⟨by rfl, by rfl⟩, ?_⟩
-  simp [bindStarC, starNames, Cfg.preFix, starSt, bindStar, isPublic, writeSym, fresh, Heap.tab, Heap.setKey,
-    Heap.setTab, tset]
+  refine ⟨⟨by rfl, by rfl⟩, ?_, ?_⟩
+  · simp [bindStarC, starNames, Cfg.current, starSt, bindStar, isPublic, writeSym, fresh, Heap.tab, Heap.setKey,
+      Heap.setTab, tset]
+  · simp [bindStarC, starNames, Cfg.preFix, starSt, bindStar, isPublic, writeSym, fresh, Heap.tab, Heap.setKey,
+      Heap.setTab, tset]
 
-/-- **`*` means `__all__`.**  In the current code, when the module has a list-valued `__all__`, `from m import *` is
+/-- **`*` means `__all__`** (for the `__all__`-reading shape `Cfg.withAll`, not today's code – C11-F6 is open).  When the module has a list-valued `__all__`, `from m import *` is
 exactly `from m import n1, n2, …` for the names of that list, in that order – for every state and every module table;
 in particular a listed name the module lacks raises AttributeError as `getattr` does. -/
 theorem C11_star_is_all (st : St) (c : Nat) (l : List String) (h : allOf (st.h.tab c) = some l) :
-    bindStarC Cfg.current st c = bindFrom st c (l.map (fun n => (n, none))) := by
-  simp only [bindStarC, starNames, Cfg.current, if_true, h]
+    bindStarC Cfg.withAll st c = bindFrom st c (l.map (fun n => (n, none))) := by
+  simp only [bindStarC, starNames, Cfg.withAll, if_true, h]
 
 example : allOf (starSt.h.tab 1) = some ["x", "_p"] := rfl
 
